@@ -15,10 +15,10 @@ import (
 func init() { register("C06", "tasklane", runC06) }
 
 func runC06(p *core.Prog, r *core.Report) {
-	r.Rule("C06-R1", "channel roles: only PushTask sends on the buffered queues, only the queue goroutine receives from them and sends on the hand-over channels, only the worker goroutine receives from those; no close; len() is the only other use; the channel fields and list elements are assigned only in the constructor", 10)
+	r.Rule("C06-R1", "channel roles: only PushTask sends on the buffered queues, only the queue goroutine receives from them and sends on the hand-over channels, only the worker goroutine receives from those; no close; len() is the only other use; a lane channel is never handed to code outside the inlined view; the channel fields and list elements are assigned only in the constructor (decided on the package's inlined views)", 10)
 	r.Rule("C06-R2", "PushTask: every path returning the constant nil took exactly one enqueue arm; every path returning anything else took none", 2)
-	r.Rule("C06-R3", "queue goroutine, per loop iteration: exactly one receive from the buffered queue and then exactly one hand-over send of that very value before the next iteration; at most one on paths that leave the loop", 3)
-	r.Rule("C06-R4", "worker goroutine, per loop iteration: exactly one receive arm was taken on every path to Start, the receiver of Start is the value received in this iteration, exactly one Start per iteration; Start is invoked nowhere else and never in a new goroutine", 4)
+	r.Rule("C06-R3", "queue goroutine, per loop iteration: exactly one receive from the buffered queue and then exactly one hand-over send of that very value before the next iteration; at most one on paths that leave the loop; the goroutine returns only on a path through a `<-ctx.Done()` arm", 3)
+	r.Rule("C06-R4", "worker goroutine, per loop iteration: exactly one receive arm was taken on every path to Start, the receiver of Start is the value received in this iteration, exactly one Start per iteration; Start is invoked nowhere else and never in a new goroutine; the goroutine returns only on a path through a `<-ctx.Done()` arm", 4)
 	r.NotDecided = append(r.NotDecided, "liveness: that an accepted task is eventually started while the context is live (needs fair scheduling); only its structural precondition is checked in C08-R2")
 	r.Trusted = append(r.Trusted, "Go channel semantics: a value sent once is received exactly once", "go/ssa lowering of select (index test chain)")
 
